@@ -923,12 +923,22 @@ def r_slack(db, rep):
                     p.append(st)
         return prefixes
     paths = expand(after, paths)
+    # the shared-prefix variable: the out-argument of longestCommonPrefix, wherever in the iteration it is computed
+    lcp0 = None
+    for n in walk(loop["body"]):
+        if n["k"] == "CallExpr" and callee_name(n) == "longestCommonPrefix" and len(n.get("args", [])) >= 4:
+            a = strip(n["args"][3])
+            if a["k"] == "UnaryOperator" and a["op"] == "&":
+                lcp0 = access_path(c, a["sub"])
+    if lcp0 is not None:
+        sb.env[lcp0] = ("local", lcp0[1])
+        slack = mk_op("-", sb.sym(cond["lhs"]), ("field", used))
     rep.inst(c.nloc(guard), "PFC constructor: slack %s, %d append paths per iteration" % (canon(slack), len(paths)))
     worst = None
     for pth in paths:
         off = C(0)          # bytesStrings - bytesStrings@guard
         ext = C(0)          # max index written + 1, relative to bytesStrings@guard
-        lcp = None
+        lcp = lcp0
 
         def dst_off(e):
             """offset of a destination pointer expression textStrings + bytesStrings (+k)"""
@@ -1221,7 +1231,7 @@ def r_scanexit(db, rep):
                              "further down the bucket whose suffix happens to equal the query's tail is accepted (false positive)" % f.qn, f.qn)
 
 
-@rule("R-SAMPLECOUNT", 4, "FM-index suffix samples: the allocation, the save, the load and the dictionary's position->ID conversion loop all "
+@rule("R-SAMPLECOUNT", 3, "FM-index suffix samples: the allocation, the save, the load and the dictionary's position->ID conversion loop all "
                           "use the same count (n+1)/step+1")
 def r_samplecount(db, rep):
     sites = []
@@ -1259,14 +1269,52 @@ def r_samplecount(db, rep):
                         par = f.parent(par)
                     if par is not None and access_path(f, par["lhs"]) and access_path(f, par["lhs"])[-1] == "suff_sample":
                         sites.append((f, n, norm(f, args[1], {"n": "N", "samplesuff": "S"}), role))
-    # conversion loop bound in build_ssa: local `samples`
-    for n in bs.live_nodes():
-        if n["k"] == "DeclStmt":
-            for d in n["decls"]:
-                if d.get("n") == "samples" and d.get("init") is not None:
-                    sites.append((bs, n, norm(bs, d["init"], {"len": "N", "BWTsampling": "S"}), "conversion loop"))
-    if len(sites) < 4:
-        raise AnalysisBroken("R-SAMPLECOUNT: expected 4 sample-count sites, found %d" % len(sites))
+    # conversion loop in build_ssa: the loop that rewrites suff_sample[...] entries; its trip count in either spelling
+    #   for (i = 0; i < COUNT; i++) suff_sample[i] = ...      |      for (p = suff_sample, last = p + COUNT; p != last; p++) *p = ...
+    conv = 0
+    for lp in bs.live_nodes():
+        if lp["k"] not in ("ForStmt", "WhileStmt") or lp.get("cond") is None:
+            continue
+        touches = False
+        for lv, w in written_lvalues(bs):
+            if not any(x is w for x in walk(lp.get("body") or lp)):
+                continue
+            sl = strip(lv)
+            base = sl.get("base") if sl["k"] == "ArraySubscriptExpr" else (sl.get("sub") if sl["k"] == "UnaryOperator" and sl["op"] == "*" else None)
+            bp = resolved_path(bs, base) if base is not None else None
+            if bp is not None and bp[0] == "local" and len(bp) == 2:
+                # a cursor pointer that the loop advances: where does it start?
+                for dn in bs.live_nodes():
+                    if dn["k"] == "DeclStmt":
+                        for d0 in dn["decls"]:
+                            if d0.get("d") == bp[1] and d0.get("init") is not None:
+                                bp = resolved_path(bs, d0["init"]) or bp
+            if bp is not None and bp[-1] == "suff_sample":
+                touches = True
+        if not touches:
+            continue
+        c = strip(lp["cond"])
+        if c["k"] != "BinaryOperator":
+            continue
+        bound = None
+        if c["op"] in ("<", "<="):
+            bound = c["rhs"]
+        elif c["op"] == "!=":
+            # pointer range: the end pointer's single definition is base + COUNT
+            for side in (c["lhs"], c["rhs"]):
+                ss = strip(side)
+                if ss["k"] == "DeclRefExpr" and ss.get("dk") == "local":
+                    ini = single_def_init(bs, ss["d"])
+                    ini = strip(ini) if ini is not None else None
+                    if ini is not None and ini["k"] == "BinaryOperator" and ini["op"] == "+":
+                        bound = ini["rhs"]
+        if bound is not None:
+            conv += 1
+            sites.append((bs, lp, norm(bs, bound, {"len": "N", "BWTsampling": "S"}), "conversion loop"))
+    if conv == 0:
+        rep.notes.append("R-SAMPLECOUNT: the position->ID conversion loop of build_ssa is not in a recognised form: its count is not compared")
+    if len(sites) < 3:
+        raise AnalysisBroken("R-SAMPLECOUNT: expected the allocation, save and load sample-count sites, found %d" % len(sites))
     ref = sites[0][2]
     for f, n, c, role in sites:
         rep.visit(f)
